@@ -11,6 +11,8 @@ mod gen;
 mod ir;
 mod json;
 mod oracle;
+#[cfg(feature = "va")]
+mod va;
 
 use ast::*;
 use bgverif::drive::{self, GenOut};
@@ -499,9 +501,27 @@ fn main() {
         let case = gen_case(&mut r, id, thorough);
         preps.push(prepare(case, a, &root, have_model));
     }
+    // the `wrap_as_variadic` cases (ids from VA_CASE_BASE, their own PRNG stream derived from the seed)
+    #[cfg(feature = "va")]
+    let va_results = {
+        let n_va: usize = if thorough { 300 } else { 26 };
+        let mut vmaster = Rng::new(args.seed ^ 0x5641_5f43_3136);
+        let mut vpreps = vec![];
+        for k in 0..n_va {
+            let mut r = vmaster.fork();
+            let id = va::VA_CASE_BASE + k;
+            if only.is_some_and(|o| o != id) {
+                continue;
+            }
+            vpreps.push(va::prepare(va::gen_case(&mut r, id), &root, have_model));
+        }
+        va::run_all(&vpreps, only.is_some())
+    };
+    #[cfg(not(feature = "va"))]
+    let va_results = oracle::VaResults::default();
     let link_budget_cpp = if thorough { 4 } else { 1 };
     let outs = oracle::run_all(&preps, link_budget_cpp, only.is_some());
-    let report = oracle::report(&args, a, &preps, &outs);
+    let report = oracle::report(&args, a, &preps, &outs, &va_results);
     util::write(&args.out.join("report.json"), &report.text());
     if only.is_some() {
         for (p, o) in preps.iter().zip(&outs) {
